@@ -106,6 +106,7 @@ type fstream struct {
 }
 
 var errSend = errors.New("send failed")
+var errClose = errors.New("close failed: transport is gone")
 
 func (s *fstream) Context() context.Context { return s.ctx }
 func (s *fstream) MsgSend(m drpc.Message, _ drpc.Encoding) error {
@@ -136,6 +137,10 @@ func (s *fstream) Close() error {
 		s.w.ev(event{Kind: "stream-close", Stream: s.name})
 		close(s.closeCh)
 	})
+	if s.kind == failing {
+		// a transport that is already dead cannot even be closed cleanly
+		return errClose
+	}
 	return nil
 }
 
